@@ -324,7 +324,12 @@ class PVLParser(object):
         """
         (begin, block_name) = self.parse_begin_aggregation_statement(tokens)
 
-        agg = self.aggregation_cls(begin)
+        try:
+            agg = self.aggregation_cls(begin)
+        except ValueError as err:
+            # The Begin-Aggregation-Statement has been consumed, so this
+            # can no longer be reported as "not an Aggregation-Block".
+            tokens.throw(ValueError, str(err))
 
         while True:
             self.parse_WSC_until(None, tokens)
@@ -357,16 +362,24 @@ class PVLParser(object):
                     except LexerError:
                         raise
                     except ValueError as ve:
+                        # The Begin-Aggregation-Statement has been consumed,
+                        # so a failure from here on is an error in the text,
+                        # not "this is not an Aggregation-Block".
                         try:
                             (agg, keep_parsing) = self.parse_module_post_hook(
                                 agg, tokens
                             )
-                            if not keep_parsing:
-                                raise ve
                         except (LexerError, ParseError):
                             raise
                         except Exception:
-                            raise ve
+                            tokens.throw(ValueError, str(ve))
+
+                        if not keep_parsing:
+                            raise ParseError(
+                                "Ran out of tokens before finding the "
+                                "End-Aggregation-Statement that matches "
+                                f'"{begin} = {block_name}".'
+                            )
 
         return block_name, agg
 
